@@ -178,3 +178,37 @@ def builder_fidelity(ck, F, rid, fn, cls, key, params=None):
     ck.ob(rid, sitestr(fn, others[0] if others else None), True if not others else None, "%s() does nothing else to the handler list" % short if not others else
           "%s() also edits the handler list through %s (an earlier handler is replaced or merged)" % (short, describe(others[0])[:50]), key="%s|list-edit" % key)
     return good
+
+
+def construction_tuple(F, cls, call, fn=None, depth=0):
+    """values of the constructor parameters of `cls` for a `QSharedPointer<cls>::create(args...)` call, or for a call to a function
+    that returns such an object made at a single create site (X::instance()): explicit arguments converted to the parameter type,
+    then the constructor's default arguments.  None when not constant / not recognised."""
+    from engine.util import skip_copies, const_int
+    from engine.conc import Conc, Unknown
+    callee = call.get("callee") or ""
+    if not (callee.startswith("QSharedPointer<%s>::create" % cls)):
+        f = F.fns.get(call.get("fn"))
+        if f is None or f.body is None or depth > 2:
+            return None
+        inner = [n for n in f.calls() if (n.get("callee") or "").startswith("QSharedPointer<%s>::create" % cls)]
+        if len(inner) != 1:
+            return None
+        return construction_tuple(F, cls, inner[0], f, depth + 1)
+    args = [a for a in call.get("args", []) if a.get("k") != "defaultarg"]
+    ctors = [c for c in F.fn_all(cls + "::" + cls.split("::")[-1]) if c.d.get("kind") == "ctor" and not c.d.get("copyctor") and not c.d.get("movector") and len(c.params) >= len(args)
+             and all("default" in p for p in c.params[len(args):])]
+    if len(ctors) != 1:
+        return None
+    ct = ctors[0]
+    out = []
+    try:
+        for i, p in enumerate(ct.params):
+            e = args[i] if i < len(args) else p["default"]
+            v = Conc(F).eval(e, {"__fn__": fn} if fn is not None else {})
+            if p.get("type") == "bool" and isinstance(v, int):
+                v = int(bool(v))
+            out.append((p.get("name"), v))
+    except Unknown:
+        return None
+    return out
